@@ -929,3 +929,40 @@ CASES += [
          new="""        (*high_w) * self.high.cached_semantic_hash(order, map)
             + (*low_w) * self.low.cached_semantic_hash(order, map)"""),
 ]
+
+CASES += [
+    dict(name="hs5-occurrence-tables-skip-first", file=CNF, rule="HS", props=["C15"], expect="one-clause-numbering",
+         old="""        let pos_lits: Vec<Vec<usize>> = (0..num_vars)
+            .map(|lit_idx| {
+                clauses
+                    .iter()
+                    .enumerate()""",
+         new="""        let pos_lits: Vec<Vec<usize>> = (0..num_vars)
+            .map(|lit_idx| {
+                clauses
+                    .iter()
+                    .filter(|c| c.len() > 1)
+                    .enumerate()"""),
+    dict(name="ee-wmc-shortcut", file=CNF, rule="EE", props=["C15"], expect="Cnf::wmc:returns-enumerated-sum",
+         old="""        let mut weight_vec = Vec::new();
+        for i in 0..self.num_vars() {""",
+         new="""        if self.clauses.is_empty() {
+            return T::one();
+        }
+        let mut weight_vec = Vec::new();
+        for i in 0..self.num_vars() {"""),
+    dict(name="cm-compress-advances-after-remove", file="src/builder/sdd/compression.rs", rule="CM", props=["C04"], expect="compress:CM3",
+         old="""                    node.swap_remove(j);
+                } else {
+                    j += 1;
+                }""",
+         new="""                    node.swap_remove(j);
+                }
+                j += 1;"""),
+    dict(name="cm-compress-merges-primes-with-and", file="src/builder/sdd/compression.rs", rule="CM", props=["C04"], expect="compress:CM2",
+         old="""                    node[i] = SddAnd::new(self.or(node[i].prime(), node[j].prime()), node[i].sub());""",
+         new="""                    node[i] = SddAnd::new(self.and(node[i].prime(), node[j].prime()), node[i].sub());"""),
+    dict(name="cm-compress-sub-of-j-ok", file="src/builder/sdd/compression.rs", rule="CM", props=["C04"], expect=None,
+         old="""                    node[i] = SddAnd::new(self.or(node[i].prime(), node[j].prime()), node[i].sub());""",
+         new="""                    node[i] = SddAnd::new(self.or(node[j].prime(), node[i].prime()), node[j].sub());"""),
+]
